@@ -1726,8 +1726,9 @@ value 3, low width 64) is accepted by `Doc.sparse` and by the loader — `get_bu
 * `Sparse.Encodes` contains `w ≤ 63`, so without the hypothesis the conclusion of `sparse_doc_load` is false for
   this file (`sp_w64_not_encodes`).
 * In the MODEL the loaded vector nevertheless answers every query correctly in both modes
-  (`sp_w64_model_answers`), because `Sparse.split` / `Sparse.combine` of Model/Sparse.lean shift with the unbounded
-  `Nat` shift.  The Rust code shifts a `usize` by `self.low.width()` = 64 (sparse_vector.rs:234 `index >> width`,
+  (`sp_w64_model_answers`), because `Sparse.split` of Model/Sparse.lean shifts with the unbounded `Nat` shift and
+  `Sparse.combine` has high part 0 at width ≥ 64.
+  The Rust code (as first written) shifts a `usize` by `self.low.width()` = 64 (sparse_vector.rs:234 `index >> width`,
   :241 `(high - low) << width`): a shift overflow.  Run on the library itself (scratch crate, this very file):
   debug build — `load` Ok, then `get(i)`, `rank(i)` for every `i < 5` and `select(0)` panic ("attempt to shift
   right/left with overflow"); release build — `get(2..4)`, `rank(1..4)` panic (`Option::unwrap()` on `None` in
